@@ -141,21 +141,34 @@ func (sc *Scope) eval(x Expr) Val {
 		for k, v := range saved {
 			nb[k] = v
 		}
-		var decls []string
+		var decls, ranges []string
 		for _, qv := range x.Vars {
 			t, s := sc.resolveSpecType(qv.Type)
 			n := q("q!" + qv.Name)
-			nb[qv.Name] = Val{T: n, S: s, GT: t, TrackArr: strings.HasPrefix(strings.TrimSpace(qv.Type), "arr(")}
+			isArr := strings.HasPrefix(strings.TrimSpace(qv.Type), "arr(")
+			nb[qv.Name] = Val{T: n, S: s, GT: t, TrackArr: isArr}
 			decls = append(decls, fmt.Sprintf("(%s %s)", n, s))
+			if t != nil && !isArr && !c.bv {
+				// a bound variable of a fixed-width Go integer type ranges over that type only
+				if _, _, ok := intInfo(t); ok && qv.Type != "int" && qv.Type != "Int" {
+					ranges = append(ranges, c.rangeFact(n, t, 0))
+				}
+			}
 		}
 		sc.bound = nb
 		body := sc.rvalue(sc.eval(x.Body))
 		sc.bound = saved
 		kw := "forall"
+		bt := body.T
 		if !x.Forall {
 			kw = "exists"
+			if len(ranges) > 0 {
+				bt = and(append(ranges, bt)...)
+			}
+		} else if len(ranges) > 0 {
+			bt = fmt.Sprintf("(=> %s %s)", and(ranges...), bt)
 		}
-		return Val{T: fmt.Sprintf("(%s (%s) %s)", kw, strings.Join(decls, " "), body.T), S: SBool, GT: types.Typ[types.Bool]}
+		return Val{T: fmt.Sprintf("(%s (%s) %s)", kw, strings.Join(decls, " "), bt), S: SBool, GT: types.Typ[types.Bool]}
 	case *ECall:
 		return sc.evalCall(x)
 	}
